@@ -68,15 +68,23 @@ Theorem C12_breach_limit_size : forall P S k t,
   tour_at S k = Some t -> valid_b (mutP (MLimitSize k) P S) (mutS (MLimitSize k) S) <> [].
 Proof. exact mut_limit_size_invalid. Qed.
 
+(* misplaced break: a break (any activity) reported at a location that is not its stop's (no validity hypothesis needed) *)
+Theorem C12_breach_break_location : forall P S k s a l st x,
+  stop_at S k s = Some st -> nth_error (ss_acts st) a = Some x -> l <> ss_loc st ->
+  valid_b P (mutS (MBreakLoc k s a l) S) <> [].
+Proof. exact mut_break_loc_invalid. Qed.
+
 (* The full statement is
      forall m P S, valid_b P S = [] -> applicable_b m P S = true -> valid_b (mutP m P S) (mutS m S) <> [].
-   Proved above for 13 of the 18 operators.  MISSING (no theorem; on every generated site the instance is evaluated inside Coq by
+   Proved above for 14 of the 21 operators.  MISSING (no theorem; on every generated site the instance is evaluated inside Coq by
    the correspondence, Mutations.run_mutation, and a counterexample would be reported as a disagreement): MCapacity (load above
    capacity), MArrival (arrival mismatch), MDupAct (duplicated activity), MDropStop (dropped stop), MMoveStop (job split by moving a
-   stop).  What is missing for them is a decomposition lemma of flat_tour / rebuild around the changed stop. *)
+   stop), MBreakDup / MBreakDrop (a break that takes time listed twice / taken out).  What is missing for them is a decomposition
+   lemma of flat_tour / rebuild around the changed stop. *)
 Theorem C12_breach_is_invalid_partial : forall m P S,
   valid_b P S = [] -> applicable_b m P S = true ->
-  match m with MCapacity _ _ | MArrival _ _ _ | MDupAct _ _ | MDropStop _ _ | MMoveStop _ _ _ => True
+  match m with MCapacity _ _ | MArrival _ _ _ | MDupAct _ _ | MDropStop _ _ | MMoveStop _ _ _
+               | MBreakDup _ _ _ | MBreakDrop _ _ _ => True
           | _ => valid_b (mutP m P S) (mutS m S) <> [] end.
 Proof. exact breach_is_invalid_partial. Qed.
 
